@@ -579,6 +579,36 @@ def run(repo, chk):
                     okd = is_zero(sp.sympify(d2) - full)
                 chk.expect(okd, "R-C15-3", "%s.diff_down: operand2 receives der * d(op)/d(operand2)%s" % (cname, tag), loc(dfn),
                            "every variable reached through the exponent needs v1**v2*log(v1) propagated, else its Jacobian entry is silently 0", expected=str(full), found=str(d2))
+            # the same rule with BOTH operands the same node (x*x, e*e with a shared sub-expression): one key in both dictionaries, the adjoint
+            # dictionary a real mapping (a value read before the first store is stale for the second), the node's adjoint starting at a symbol A
+            fa1, fa2 = ctor_fields(repo, "BinaryOperator")[:2]
+            u, A0 = sp.Symbol("u", positive=True), sp.Symbol("A", real=True)
+            fu = f.subs({v1: u, v2: u}, simultaneous=True)
+            for combo in combos:
+                def ch(name, node, args, kwargs, st, ex, recv, combo=combo):
+                    if combo is not None and name == "self.%s.is_leaf" % fa2:
+                        return combo[0]
+                    if combo is not None and name == "self.%s.is_variable_type" % fa2:
+                        return combo[1]
+                    return py_calls(name, node, args, kwargs, st, ex, recv)
+
+                def same_node(base_, attr, st):
+                    if isinstance(base_, Opaque) and base_.text == "self" and attr in (fa1, fa2):
+                        return Opaque("u")
+                    return NotImplemented
+                ex = SymExec(call_hook=ch, attr_hook=same_node)
+                outs = [o for o in ex.run(dfn, {"val_dict": {"u": u, "self": fu}, "der_dict": {"self": D, "u": A0}, "self": Opaque("self")}) if o.raised is None]
+                if len(outs) != 1:
+                    raise ExtractError("%s.diff_down (operands aliased): %d paths" % (cname, len(outs)))
+                got = sp.sympify(outs[0].env["der_dict"]["u"])
+                want = A0 + D * sp.diff(fu, u)
+                oka = is_zero(got - want)
+                if combo == (True, False):       # a constant leaf to its own power: only the base term is required
+                    oka = oka or is_zero(got - (A0 + D * sp.diff(f, v1).subs({v1: u, v2: u}, simultaneous=True)))
+                tag = "" if combo is None else " [exponent %s, %s]" % ("leaf" if combo[0] else "expression", "variable type" if combo[1] else "constant type")
+                chk.expect(oka, "R-C15-3", "%s.diff_down with both operands the same node accumulates der * d op(u,u)/du%s" % (cname, tag), loc(dfn),
+                           "when operand1 is operand2 (x*x, e*e) both contributions go to ONE adjoint entry: reading both entries before writing them makes the second "
+                           "store overwrite the first and a term of the derivative is lost", expected=str(want), found=str(got))
         elif base == "UnaryOperator":
             ex = SymExec(call_hook=py_calls)
             val = {"self._operand": v, "self": un_ops.get(op, sp.Symbol("f"))}
@@ -610,7 +640,44 @@ def run(repo, chk):
             outs = SymExec(call_hook=py_calls).run(dfn, {"val_dict": {"self." + f_body: v, "self": sp.Symbol("f")}, "der_dict": der, "self": Opaque("self")})
             chk.expect(all(is_zero(sp.sympify(o.env["der_dict"]["self." + f_body])) and not o.stores() for o in outs if o.raised is None), "R-C15-3",
                        "InequalityOperator.diff_down adds nothing", loc(dfn), found=[str(o.env["der_dict"]) for o in outs])
-    chk.floor("R-C15-3", 5 * 2 + 2 + 11 + 2)
+    # forward sweep: a leaf's adjoint that is already in the dictionary (the leaf is used by an earlier operator, or is the other operand of this one)
+    # is kept, a missing one starts at 0 -- decided on the adjoint dictionary as a real mapping, operands distinct and aliased
+    fb1, fb2 = ctor_fields(repo, "BinaryOperator")[:2]
+    A0 = sp.Symbol("A", real=True)
+    for mname in ("diff_up", "diff_up_symbolic"):
+        ufn = repo.func(EXPR, "BinaryOperator." + mname)
+        chk.fn(ufn)
+        for aliased in (False, True):
+            keys = {fb1: "u", fb2: "u" if aliased else "w"}
+
+            def ch(name, node, args, kwargs, st, ex, recv):
+                if isinstance(node.func, ast.Attribute) and node.func.attr == "is_leaf" and not args:
+                    return True
+                return NotImplemented
+
+            def node_of(base_, attr, st, keys=keys):
+                if isinstance(base_, Opaque) and base_.text == "self" and attr in keys:
+                    return Opaque(keys[attr])
+                return NotImplemented
+            ex = SymExec(call_hook=ch, attr_hook=node_of)
+
+            def member(txt, test, st, ex=ex):
+                neg = False
+                while isinstance(test, ast.UnaryOp) and isinstance(test.op, ast.Not):
+                    test = test.operand
+                if isinstance(test, ast.Compare) and len(test.ops) == 1 and isinstance(test.ops[0], (ast.In, ast.NotIn)):
+                    a_, b_ = ex.ev(test.left, st), ex.ev(test.comparators[0], st)
+                    if isinstance(b_, dict) and isinstance(a_, Opaque):
+                        return (a_.text in b_) == isinstance(test.ops[0], ast.In)
+                return None
+            ex.test_hook = member
+            outs = [o for o in ex.run(ufn, {"val_dict": {}, "der_dict": {"u": A0}, "self": Opaque("self")}) if o.raised is None]
+            dd = outs[0].env["der_dict"] if len(outs) == 1 else {}
+            oku = len(outs) == 1 and dd.get("u") == A0 and (aliased or (dd.get("w") is not None and is_zero(sp.sympify(dd.get("w")))))
+            chk.expect(oku, "R-C15-3", "BinaryOperator.%s keeps the adjoint a leaf operand already has and starts a new one at 0 [%s]" % (mname, "operands the same leaf" if aliased else "distinct leaves"),
+                       loc(ufn), "a leaf shared by several operators (or used twice by one) accumulates its adjoint over all of them: resetting it drops the earlier contributions",
+                       expected="u: A" + ("" if aliased else ", w: 0"), found=str(dd))
+    chk.floor("R-C15-3", (4 + 4) * 2 + 11 + 2 + (4 + 4) + 4)
     # operator overloads: the value denoted by each method of ExpressionBase, for `other` = 0, 1 and two other numbers, obtained by running the
     # method (whatever its statement shape) with  self._binary_operation_helper(x, K) := self <op of K> x  and  Float(x) := x
     eb = repo.cls(EXPR, "ExpressionBase")
@@ -1234,4 +1301,12 @@ WITNESSES = [
          new="def value(obj):\n    if isinstance(obj, (float, int)):\n", rule="R-C15-11"),
     dict(name="leaf-helper-exact-python-types", file=EXPR, old="    def _binary_operation_helper(self, other, cls):\n        if type(other) in native_numeric_types:\n            other = Float(other)\n        new_operator = cls(self, other.last_node())",
          new="    def _binary_operation_helper(self, other, cls):\n        if type(other) in (float, int):\n            other = Float(other)\n        new_operator = cls(self, other.last_node())", rule="R-C15-11"),
+    # --- R-C15-3 with both operands the same node (x*x): read-both-then-write-both loses a contribution
+    dict(name='mul-aliased-operands-read-both-then-write', file=EXPR, old='        der_dict[self._operand1] += der * val_dict[self._operand2]\n        der_dict[self._operand2] += der * val_dict[self._operand1]', new='        op1 = self._operand1\n        op2 = self._operand2\n        val1, der1 = val_dict[op1], der_dict[op1]\n        val2, der2 = val_dict[op2], der_dict[op2]\n        der_dict[op1] = der1 + der * val2\n        der_dict[op2] = der2 + der * val1', rule='R-C15-3'),
+    dict(name='mul-products-in-temporaries-preserving', file=EXPR, old='        der_dict[self._operand1] += der * val_dict[self._operand2]\n        der_dict[self._operand2] += der * val_dict[self._operand1]', new='        op1, op2 = self._operand1, self._operand2\n        t1 = der * val_dict[op2]\n        t2 = der * val_dict[op1]\n        der_dict[op1] += t1\n        der_dict[op2] += t2', silent=True),
+    dict(name='mul-read-then-write-per-operand-preserving', file=EXPR, old='        der_dict[self._operand1] += der * val_dict[self._operand2]\n        der_dict[self._operand2] += der * val_dict[self._operand1]', new='        d1 = der_dict[self._operand1]\n        der_dict[self._operand1] = d1 + der * val_dict[self._operand2]\n        d2 = der_dict[self._operand2]\n        der_dict[self._operand2] = d2 + val_dict[self._operand1] * der', silent=True),
+    dict(name='sub-aliased-operands-read-both-then-write', file=EXPR, old='        der_dict[self._operand1] += der\n        der_dict[self._operand2] -= der', new='        a, b = der_dict[self._operand1], der_dict[self._operand2]\n        der_dict[self._operand1] = a + der\n        der_dict[self._operand2] = b - der', rule='R-C15-3'),
+    dict(name='pow-aliased-operands-read-both-then-write', file=EXPR, old='        der_dict[self._operand1] += der * val2 * val1**(val2 - 1)\n        if not self._operand2.is_leaf() or self._operand2.is_variable_type():\n            der_dict[self._operand2] += der * val1**val2 * log(val1)', new='        d1, d2 = der_dict[self._operand1], der_dict[self._operand2]\n        der_dict[self._operand1] = d1 + der * val2 * val1**(val2 - 1)\n        if not self._operand2.is_leaf() or self._operand2.is_variable_type():\n            der_dict[self._operand2] = d2 + der * val1**val2 * log(val1)', rule='R-C15-3'),
+    dict(name='diff-up-symbolic-resets-leaf-adjoint', file=EXPR, old='            val1 = self._operand1\n            val_dict[self._operand1] = val1\n            if self._operand1 not in der_dict:\n                der_dict[self._operand1] = 0', new='            val1 = self._operand1\n            val_dict[self._operand1] = val1\n            der_dict[self._operand1] = 0', rule='R-C15-3'),
+    dict(name='diff-up-membership-spelling-preserving', file=EXPR, old='            val1 = self._operand1\n            val_dict[self._operand1] = val1\n            if self._operand1 not in der_dict:\n                der_dict[self._operand1] = 0', new='            val1 = self._operand1\n            val_dict[self._operand1] = val1\n            if not (self._operand1 in der_dict):\n                der_dict[self._operand1] = 0', silent=True),
 ]
